@@ -223,6 +223,8 @@ pub fn fill_gaps<const D: usize>(original: &[Point<f64, D>], max_dist: f64) -> V
         if d > max_dist {
             let mut n = 1;
             while d / (n + 1) as f64 > max_dist {
+                #[cfg(feature = "verif")]
+                crate::verif::tick();
                 n += 1;
             }
             for x in evenly_spaced_points_between(result.last().unwrap(), p, n) {
